@@ -24,7 +24,10 @@ RULE = ("One evaluation = one seeded execution of two real Managers (the "
         "replacement is negotiated and the peer goes silent on it; one_way: "
         "from a drawn time nothing the Leader sends arrives (pings "
         "unanswered) while the Follower's data records keep arriving every "
-        "drawn gap. "
+        "drawn gap; bulk_reconnect: bandwidth-limited path (token bucket "
+        "in simulated time), 0.5-1 MB un-acked at a loss, re-sent on the "
+        "replacement over 1.3-3 intervals with the transport pausing the "
+        "Outbound, peer answering at once. "
         "Non-trivial: at least one ping/pong round trip happened and (a "
         "stall window was applied or a drop/stop occurred). Distinct: "
         "event-log digests among non-trivial runs.")
@@ -51,7 +54,8 @@ INTERVALS = (0.5, 1.0, 5.0, 30.0, 60.0)
 def configs(tier):
     return [{"regime": r} for r in ("responsive", "silent", "slow",
                                     "responsive", "silent", "stop", "loss",
-                                    "reconnect_silent", "one_way")]
+                                    "reconnect_silent", "one_way",
+                                    "bulk_reconnect")]
 
 
 def run_one(seed, tape, opts):
@@ -153,6 +157,8 @@ def run_one(seed, tape, opts):
                 sim.note("fault.cut")
                 sim.net.cut(eL.link)
         R.callLater(cut_at, do_cut)
+    if regime == "bulk_reconnect":
+        return _bulk_reconnect(seed, tape, w, interval, first_conn, eL, t_conn)
     if regime == "one_way":
         return _one_way(seed, tape, w, interval, first_conn, eL, t_conn)
     if regime == "reconnect_silent":
@@ -240,6 +246,130 @@ def run_one(seed, tape, opts):
 
 def _timer_pending(m):
     return m._timer is not None and m._timer.active()
+
+
+def _bulk_reconnect(seed, tape, w, interval, first_conn, eL, t_conn):
+    """A responsive peer behind a slow path: the Leader has a large un-acked
+    backlog when the connection is lost, and re-sending it on the replacement
+    takes longer than a ping interval (the transport pauses the Outbound
+    mid-way). The path still carries a ping and its pong in well under one
+    interval, and the Follower answers at once: by construction every ping
+    is answered within one interval, so the monitor must never drop."""
+    sim = w.sim
+    L, F = w.leader, w.follower
+    R = sim.reactor
+    viol = []
+    nrec = 8 + tape.choose(8, "nrec")
+    recsize = 60000
+    backlog = nrec * recsize
+    # bytes per simulated second: the backlog needs 1.3 .. 3 intervals, a ping
+    # queued behind a full transport buffer (<= ~130 KiB + window) well under
+    # one interval
+    spread = tape.pick((1.3, 2.0, 3.0), "spread")
+    rate = max(backlog / (spread * interval), 3.2 * 150000 / interval)
+    sim.net.window = 16384
+    sim.net.high_water = 65536
+
+    def limit(end):
+        end.rate = rate
+        end.rate_burst = 16384
+    orig_made = sim.on_end_made
+
+    def on_end_made(end):
+        if orig_made is not None:
+            orig_made(end)
+        if end.link.mode == "stream":
+            limit(end)
+    sim.on_end_made = on_end_made
+    for e in eL.link.ends:
+        limit(e)
+    F.listen("data")
+    rec = L.connect("data")
+    sim.run(4000, until=lambda: rec[1] != "pending", max_time=interval / 4)
+    if rec[1] != "ok":
+        raise HarnessError("setup: subchannel not opened: %r" % (rec[1],))
+    p = rec[2]
+    issued, lat = {}, []
+    real_send, real_pong = L.m.send_ping, L.m.handle_pong
+
+    def send_ping(ping_id, on_pong=None):
+        issued[ping_id] = sim.now()
+        return real_send(ping_id, on_pong)
+
+    def handle_pong(ping_id):
+        if ping_id in issued:
+            lat.append(sim.now() - issued.pop(ping_id))
+        return real_pong(ping_id)
+    L.m.send_ping, L.m.handle_pong = send_ping, handle_pong
+
+    def write_all():
+        for i in range(nrec):
+            if not p.lost:
+                p.transport.write(bytes([65 + i % 26]) * recsize)
+    R.callLater(interval * 0.1, write_all)
+    cut_at = interval * tape.pick((0.15, 0.3, 0.6), "cut_at")
+
+    def do_cut():
+        if eL.link.up:
+            sim.ev("cut")
+            sim.note("fault.cut")
+            sim.net.cut(eL.link)
+    R.callLater(cut_at, do_cut)
+
+    def replaced():
+        c = L.m._connection
+        return c is not None and c is not first_conn and w.both_connected()
+    sim.run(60000, until=replaced, max_time=cut_at + 4 * interval)
+    if not replaced():
+        raise HarnessError("bulk_reconnect: no replacement connection")
+    c2 = L.m._connection
+    e2 = w.l2_end[c2]
+    t2 = sim.now()
+    dropped = [None]
+    paused_seen = [0]
+
+    def watch():
+        if dropped[0] is None and (not e2.alive or e2.transport.disconnecting):
+            dropped[0] = sim.now()
+            sim.ev("leader_dropped_replacement")
+        if e2.alive and e2.transport.producerPaused:
+            paused_seen[0] += 1
+    sim.after_step = watch
+    sim.run(400000, until=lambda: dropped[0] is not None,
+            max_time=(spread + 4) * interval)
+    watch()
+    w.finish()
+    worst = max(lat) if lat else 0.0
+    got = sum(len(x) for q in F.protocols for x in q.data)
+    if paused_seen[0]:
+        sim.note("probe.replay_paused_by_backpressure")
+    if dropped[0] is not None:
+        if worst < interval:
+            viol.append({"key": "C16.responsive_dropped_under_load", "clause":
+                         "a connection whose peer answers every ping within "
+                         "one interval is never dropped by the monitor",
+                         "detail": "interval %.1f: %d KiB un-acked at the "
+                         "loss, re-sent at %.0f KiB/s (%.1f intervals) on the "
+                         "replacement; the peer answers at once, slowest "
+                         "pong %.2f s, %d ping(s) never answered because "
+                         "never transmitted; Leader dropped the replacement "
+                         "%.2f s after it was selected" %
+                         (interval, backlog // 1024, rate / 1024, spread,
+                          worst, len(issued), dropped[0] - t2)})
+        else:
+            sim.note("probe.premise_broken_slow_pong")
+    return {"violation": viol[0] if viol else None,
+            "nontrivial": paused_seen[0] > 0,
+            "digest": sim.hexdigest(), "trace": sim.trace,
+            "stats": {"steps": sim.steps, "sim_s": sim.now() - 1000.0,
+                      "notes": sim.notes},
+            "sample": {"seed": seed, "regime": "bulk_reconnect",
+                       "interval": interval, "backlog": backlog,
+                       "rate": round(rate), "cut_at": cut_at,
+                       "pongs": len(lat), "slowest_pong": round(worst, 3),
+                       "delivered": got,
+                       "dropped_at": None if dropped[0] is None else
+                       round(dropped[0] - t2, 3)}}
 
 
 def _one_way(seed, tape, w, interval, first_conn, eL, t_conn):
